@@ -1,10 +1,14 @@
 (* C01 -- operation sequences behave exactly like std Vec.
-   PARTIAL: refinement of the machine to the list-level specification is proved for the shifting
-   core (push, pop, insert) and for the iterator protocol of Drain/Splice; the remaining operations
-   are tied by the correspondence run (three-way with std::vec::Vec) only. *)
+   PARTIAL: refinement of the machine to the list-level specification is proved
+   - for EVERY history over push / insert / pop / remove / swap_remove / truncate (clear) / reserve / reserve_exact /
+     shrink_to_fit / shrink_to, any arguments, any panicking destructors, panics caught between the
+     calls (C01_every_history_refines_the_list_model: induction over the operation list);
+   - per operation for insert (spare capacity), and for the iterator protocol of Drain (any
+     interleaving of front / back steps, drop at any point under any panics);
+   the remaining operations are tied by the correspondence run (three-way with std::vec::Vec) only. *)
 From Coq Require Import ZArith List Bool Lia.
-From MV Require Import Ast Eval Scalar Machine.
-From MV.Proofs Require Import Arith Logic Prim View OpsLocal Guards Drops DrainIt.
+From MV Require Import Ast Eval Scalar Machine Model Policy.
+From MV.Proofs Require Import Arith Logic Prim View OpsLocal Guards Grow CapHistory Drops DrainIt Core Refine.
 Import ListNotations.
 Open Scope Z_scope.
 
@@ -88,3 +92,100 @@ Theorem C01_dropping_a_drain_restores_prefix_and_suffix :
 Proof. intros cfg Hc Hd ncap tmp. exact (drain_drop_machine cfg Hc Hd ncap tmp). Qed.
 
 Print Assumptions C01_dropping_a_drain_restores_prefix_and_suffix.
+
+(* ---- the history theorem: the machine refines the list model ---- *)
+
+(* what the vector holds, as a list of element identities; `vabs` also says that the block satisfies
+   the layout invariant and that the elements are initialised, live and pairwise distinct *)
+Theorem C01_every_history_refines_the_list_model :
+  forall cfg ncap, cfg_ok cfg -> policy_ok ncap -> needs_drop cfg = true ->
+  forall v os s l,
+  vabs cfg s v l -> Forall rop_ok os ->
+  post (run_rops cfg ncap v os s)
+       (fun _ s' => exists l', rsteps os l l' /\ vabs cfg s' v l')
+       (fun _ => False).
+Proof. exact history_refines_list_spec. Qed.
+
+(* the same with the growth policy REGENERATED from src/impl/helpers.rs on this run *)
+Theorem C01_every_history_refines_the_list_model_regenerated_policy :
+  forall cfg, cfg_ok cfg -> needs_drop cfg = true ->
+  forall v os s l,
+  vabs cfg s v l -> Forall rop_ok os ->
+  post (run_rops cfg (ncap_of cfg) v os s)
+       (fun _ s' => exists l', rsteps os l l' /\ vabs cfg s' v l')
+       (fun _ => False).
+Proof. intros cfg Hc Hd. exact (history_refines_list_spec cfg (ncap_of cfg) Hc (ncap_policy cfg) Hd). Qed.
+
+(* the list model itself, spelled out: what each call does to the list when it returns (true) and
+   when it panics (false) *)
+Theorem C01_list_model :
+  forall o c l l', rstep o c l l' <->
+    match o, c with
+    | RPush _, true => exists e, ~ In e l /\ l' = l ++ [e]
+    | RPush _, false => l' = l
+    | RInsert i _, true => exists e, ~ In e l /\ (Z.to_nat i <= List.length l)%nat /\ l' = firstn (Z.to_nat i) l ++ e :: skipn (Z.to_nat i) l
+    | RInsert i _, false => l' = l
+    | RPop, true => l' = removelast l
+    | RPop, false => False
+    | RRemove i, true => (Z.to_nat i < List.length l)%nat /\ l' = firstn (Z.to_nat i) l ++ skipn (S (Z.to_nat i)) l
+    | RRemove i, false => (List.length l <= Z.to_nat i)%nat /\ l' = l
+    | RSwapRemove i, true => (Z.to_nat i < List.length l)%nat /\ l' = swap_delete (Z.to_nat i) l
+    | RSwapRemove i, false => (List.length l <= Z.to_nat i)%nat /\ l' = l
+    | RTruncate n, _ => l' = firstn (Z.to_nat n) l
+    | RCap _, _ => l' = l
+    end.
+Proof. intros [p|i p| |i|i|n|o] [|] l l'; simpl; unfold delete_at, list_insert; tauto. Qed.
+
+(* the values handed back are the list's *)
+Theorem C01_pop_returns_the_last_element :
+  forall cfg (ncap : Z -> option Z), cfg_ok cfg -> needs_drop cfg = true -> forall s v l,
+  vabs cfg s v l ->
+  post (pop cfg v s)
+    (fun r s' => (l = [] /\ r = None /\ vabs cfg s' v []) \/
+                 (exists l0 x, l = l0 ++ [x] /\ r = Some x /\ vabs cfg s' v l0 /\ ledger s' x = Out))
+    (fun _ => False).
+Proof. intros cfg ncap. exact (pop_abs cfg ncap). Qed.
+
+Theorem C01_remove_returns_the_indexed_element :
+  forall cfg, cfg_ok cfg -> needs_drop cfg = true -> forall s v l idx,
+  vabs cfg s v l -> 0 <= idx ->
+  post (remove cfg v idx s)
+    (fun r s' => nth_error l (Z.to_nat idx) = Some r /\ vabs cfg s' v (delete_at (Z.to_nat idx) l) /\ ledger s' r = Out)
+    (fun s' => Z.of_nat (List.length l) <= idx /\ s' = s).
+Proof. exact remove_abs. Qed.
+
+(* swap_remove(i): element i is handed back, the last element takes its place *)
+Theorem C01_swap_remove_moves_the_last_element_into_the_hole :
+  forall cfg, cfg_ok cfg -> needs_drop cfg = true -> forall s v l idx,
+  vabs cfg s v l -> 0 <= idx ->
+  post (swap_remove cfg v idx s)
+    (fun r s' => nth_error l (Z.to_nat idx) = Some r /\ vabs cfg s' v (swap_delete (Z.to_nat idx) l) /\ ledger s' r = Out)
+    (fun s' => Z.of_nat (List.length l) <= idx /\ s' = s).
+Proof. exact swap_remove_abs. Qed.
+
+Theorem C01_swap_delete_is_what_it_says :
+  forall i l x, nth_error l i = Some x ->
+  (forall k, (k < List.length l - 1)%nat ->
+     nth_error (swap_delete i l) k = if Nat.eqb k i then nth_error l (List.length l - 1) else nth_error l k) /\
+  List.length (swap_delete i l) = (List.length l - 1)%nat.
+Proof. exact swap_delete_nth. Qed.
+
+(* insert(i, x) for any capacity state (growing when full) *)
+Theorem C01_insert_any_capacity :
+  forall cfg ncap, cfg_ok cfg -> policy_ok ncap -> needs_drop cfg = true -> forall s v l idx e,
+  vabs cfg s v l -> ledger s e = Live -> ~ In e l -> e < next_elem s -> 0 <= idx ->
+  post (insert cfg ncap v idx e s)
+    (fun _ s' => idx <= Z.of_nat (List.length l) /\ vabs cfg s' v (list_insert (Z.to_nat idx) e l))
+    (fun s' => vabs cfg s' v l).
+Proof. exact insert_abs. Qed.
+
+(* the premises are satisfiable: a freshly created vector abstracts to the empty list *)
+Example C01_new_vector_is_the_empty_list :
+  forall cfg s v, vec_sentinel s v -> vabs cfg s v [].
+Proof. intros cfg s v H. left. split; [exact H|reflexivity]. Qed.
+
+Print Assumptions C01_every_history_refines_the_list_model.
+Print Assumptions C01_pop_returns_the_last_element.
+Print Assumptions C01_remove_returns_the_indexed_element.
+Print Assumptions C01_swap_remove_moves_the_last_element_into_the_hole.
+Print Assumptions C01_insert_any_capacity.
